@@ -57,8 +57,49 @@ def _nontrivial_shared_bucket(text, recs):
 
 CHECKS = {}
 
+def _cid_check(ctx):
+    """C01 "for every primary type": histories on a store with the CID primary (harness/cmd/ciddrive: every multihash key is presented as a
+    CIDv1 whose codec alternates from call to call), judged by the map oracle.  The Coq model covers the multihash primary only."""
+    prop, tier, wd, rng = ctx["prop"], ctx["tier"], ctx["wd"], ctx["rng"]
+    C.go_build(["ciddrive"])
+    n = 60 if tier == "quick" else 3000
+    if ctx.get("replay"):
+        if not ctx["replay"].endswith(".cidhist"):
+            return [], {}
+        texts = [open(ctx["replay"]).read()]
+    else:
+        texts = [gen.history(rng, dict(put=36, get=14, has=4, size=5, remove=12, flush=12, iter=3, reopen=4, igc=0, pgc=0),
+                             pmax_choices=(1 << 30,), imax_choices=(1, 40, 100, 300, 1 << 30)).replace("primary=mh", "primary=cid", 1) for _ in range(n)]
+    d = os.path.join(wd, "cid"); os.makedirs(d, exist_ok=True)
+    from concurrent.futures import ThreadPoolExecutor
+    def one(i):
+        p = os.path.join(d, "c%04d.cidhist" % i)
+        open(p, "w").write(texts[i])
+        r = subprocess.run([os.path.join(C.BIN, "ciddrive"), p], env=dict(os.environ, GOLOG_LOG_LEVEL="fatal"), stdout=subprocess.PIPE, stderr=subprocess.PIPE, text=True, timeout=300)
+        if r.returncode != 0:
+            return texts[i], None, (r.stdout[-300:] + r.stderr[-600:])
+        return texts[i], [json.loads(l) for l in r.stdout.split("\n") if l.strip()], ""
+    with ThreadPoolExecutor(C.NCPU) as ex:
+        res = list(ex.map(one, range(len(texts))))
+    viol, nontriv = [], 0
+    for t, recs, raw in res:
+        bad = (-1, "ciddrive failed (a panic of the library counts as a failure of the call): " + raw) if recs is None else eval_oracle(t, recs, ("map",))
+        if recs and _count_ops(t, ("put",)) >= 3 and _count_ops(t, ("flush", "reopen")) >= 1:
+            nontriv += 1
+        if bad and len(viol) < 3:
+            rp = C.save_replay(prop, "cid-%s.cidhist" % hashlib.sha1(t.encode()).hexdigest()[:10],
+                               "# C01 fails on the implementation with the CID primary: op %d: %s\n# replay: cd /verif && ./check C01 --replay <this file>\n%s" % (bad[0], bad[1], t))
+            viol.append(("CID primary, history op %d: %s" % bad, rp, True))
+    return viol, {"evaluations": len(texts), "distinct_nontrivial": nontriv, "histories_on_the_cid_primary": len(texts),
+                  "samples": [{"cid_history": texts[-1].strip().split("\n")[:12]}],
+                  "cid_rule": "the same history generator, run on a store opened with the CID primary (single primary file, no primary GC); keys are presented as CIDv1 "
+                              "raw / dag-pb alternately (CIDs that differ in codec address one block); map oracle incl. iteration and reopen; non-trivial = >= 3 puts and a flush or reopen"}
+
+
 CHECKS["C01"] = Spec(
     prop_file="C01.v",
+    tools=["sthdrive", "witness", "ciddrive"],
+    extra=_cid_check,
     weights=dict(put=34, get=14, has=4, size=5, remove=12, flush=12, iter=3, igc=2, pgc=3, reopen=2),
     keep=("res",),
     witnesses=["F1-empty-value-after-foreign-block", "F2-nil-value-read-before-flush"],
